@@ -377,8 +377,15 @@ def build_output(proj, spec, fs):
     kin[0]["Q2"], kin[1]["Q2"] = 20, 10
     ob["observables"] = {}
     xs_kinds = set(S.Evaluator(proj).module_global(proj.module("yadism.observable_name"), "xs"))
-    for name in spec["obs"]:
+    for i_, name in enumerate(spec["obs"]):
+        # every observable at its own points (another x, another Q2, another number of points): tables shared between observables of one
+        # result type, or points paired by position with another observable's rows, cannot hide behind identical kinematics
         ks = [dict(k) for k in kin]
+        for k in ks:
+            k["x"] = k["x"] * Fraction(1, i_ + 1)
+            k["Q2"] = k["Q2"] + i_
+        if i_ == 1:
+            ks = ks[:1]
         if name.split("_")[0] not in xs_kinds:
             for k in ks:
                 k.pop("y")
